@@ -1,7 +1,7 @@
 #!/bin/bash
 # tools/try_wt.sh Cxx <letter> <tier> [check id]: apply /tmp/mut-Cxx/mutant<letter>.diff in its scratch worktree, run one check against it, undo
 pid=$1; m=$2; tier=${3:-quick}; cid=${4:-$1}
-wt=/tmp/mut-$pid
+wt=${WT_PREFIX:-/tmp/mut-}$pid
 git -C $wt checkout -q -- py34
 git -C $wt apply $wt/mutant$m.diff || exit 9
 cd /verif
